@@ -84,6 +84,13 @@ CHECKS = {
         "trusted: raw DuckDB digest as ground truth; 'transaction still open' is decided from effects; not demanded: which of 2003/2043 for unknown column/function/schema/duplicate, message wording, failure of SHOW ... IN <missing scope>",
         "explicit-state exploration of (session state x failing statement [x failing statement]) with before/after ground-truth comparison",
     ),
+    "C19": (
+        "E3-sched",
+        "model_checking",
+        "stateless preemption-bounded schedule exploration of 2-3 real threads running unmodified fakesnow API scripts under a cooperative scheduler whose scheduling points are the DuckDB engine calls (execute/cursor/close); all schedules within the preemption bound per harness (quick 1, thorough 2-3) are executed; oracle: (thread results, final raw-DuckDB digest) must be among the outcomes of all serial interleavings at API-call granularity computed on the real code; deadlocks are detected (library locks replaced by cooperative locks)",
+        "trusted: DuckDB engine calls are atomic at this granularity and fetch* is thread-local (probe p20); races inside DuckDB and unsynchronised Python-level sharing below engine-call granularity are not reached (module-level mutable objects are listed in evidence as scheduler blind spots); free-running runs are supplementary and never a verdict",
+        "stateless model checking of the real threads (iterative context bounding, CHESS-style) with a serial-order differential oracle",
+    ),
 }
 
 NOT_BUILT = "check not built yet in this round (planned per DESIGN.md §3); no claim is made"
